@@ -118,7 +118,8 @@ def candidates(text, cfgnames):
 
 def subst_output(out, old, new):
     # the [i/public] / [c/private] tags of signature hints are not identifiers
-    return re.sub(r"(?<![A-Za-z0-9_\[])%s(?![A-Za-z0-9_])|(?<=\[)%s(?![A-Za-z0-9_/])" % (re.escape(old), re.escape(old)), new, out)
+    # ... nor is the program's own file name (t.rb) when a local happens to be called t
+    return re.sub(r"(?<![A-Za-z0-9_\[])%s(?![A-Za-z0-9_]|\.rb:::)|(?<=\[)%s(?![A-Za-z0-9_/])" % (re.escape(old), re.escape(old)), new, out)
 
 
 def run(tier, work):
